@@ -8,8 +8,9 @@ RULE = ("model tie: the extracted Coq models of HasherV2, HasherHybrid (padding 
         "to exhaustion as TorrentAssembler does) vs the real classes on one file per case -- root, piece layer and the yielded "
         "layer hashes are compared (C03 compares the v1 side); cases: every size of the boundary set {< B, k*B+-1, = pl, "
         "k*pl+-1, k*pl+-B, piece counts 1,2,3,4,5,8,9} x pl/B in {1,2,4,8} with the real BLOCK_SIZE (files <= 600 KB), and, "
-        "marked patched_constant, sizes 0..160 x pl in {4,8,16,32} with torrentfile.hasher.BLOCK_SIZE patched to 4 (exhaustive in "
-        "the thorough tier together with B=1 and B=3 scopes and 160 random real-B sizes; a sample of 120 in quick); merkle_root on "
+        "marked patched_constant, sizes 0..160 x pl in {4,8,16,32,64} with torrentfile.hasher.BLOCK_SIZE patched to 4 (exhaustive in "
+        "the thorough tier, together with B=1 and B=3 scopes (sizes 0..59, pl/B in {1,2,4,8}) and 400 random real-B sizes; a sample "
+        "of 120 in quick; the quick tier runs the exhaustive scopes too when the source of a modelled function changed); merkle_root on "
         "lists of 0..33 hashes and next_power_2 on 0..1000 vs their models; Spec/Bep52.v vs the reference oracle on the same "
         "inputs.  Every real hasher is also compared with the reference oracle directly (root for size > 0, layer for size > pl). "
         "End to end: TorrentFileV2, TorrentFileHybrid, TorrentAssembler (meta version 2 and 3) and `create --meta-version 2|3` on "
